@@ -674,7 +674,7 @@ class C05(Prop):
             "call_other incl. surplus arguments, function pointers of every kind, map/filter/sort_array/unique_array "
             "callbacks, catch in catch, error()/throw(), safe applies via sprintf(\"%O\"), create() in load_object/new, "
             "input_to, enable_commands, init() hooks via move_object, move_or_destruct() hooks via destruct, command verbs via command(), "
-            "notify_fail() functions, map/filter over mappings, unique_mapping, map over strings, implode with a function, message(), self-destructing "
+            "notify_fail() functions, map/filter over mappings, unique_mapping, map over strings, implode with a function, message(), nested efun callbacks (efun X running X / sort_array in its callback, inner error or throw caught by the outer callback, outer result compared by value), self-destructing "
             "objects, destruct of the master with a reload that fails (refused / error, throw or injected fault in create() of the new copy / nested),  the program as a callback of the real call_out() sweep and as one "
             "cycle of the real backend() (a user command, a heart beat, reset(), clean_up()); master error handlers that run catch()/throw()/callbacks; arity -3..+3 through call_other / function pointers / the driver's "
             "safe_apply and safe_call_function_pointer with 0 or 4 locals; every frame kind at exactly limit-2 / limit-1 / limit "
@@ -687,6 +687,7 @@ class C05(Prop):
                    "the oracle clause for last_verb (qv) is proved for evaluations started outside a command (exec_vk: kept or cleared; driver_keeps_last_verb, top_keeps_last_verb); the probe / heart-beat / catch-value clauses are checked on traces",
                    "'names of the vital objects after = before' is an oracle clause and compared on every trace; proved at state level (restoreContext_runs_fixNames), not through the induction over all programs",
                    "the simul_efun branch of destruct_object's vital block (refused from LPC while a master exists)",
+                   "the C state restored by the sort_array / unique_array / unique_mapping handlers (context stack, list heads) is regenerated and tied (tie_handler_effects) and exercised by nested efun-callback cases (ASan + by-value result), not modelled or proved",
                    "call-back sites not driven: f_objects, object_present, fixed master applies (valid_read / valid_seteuid / creator_file run but have no generated body), print_prompt, snoop, logon, ed, parse_command, virtual objects",
                    "preload_objects, console-mode resume, do_slow_shutdown recovery points; varargs callees; get_char"]
 
